@@ -531,6 +531,12 @@ def bounded_simulation(chk):
     if known:
         o = chk.decided('bounded/known/openings-duplicated-across-pulses', False, detail=str(known[0]), meta={'bounded': True, 'replay': known[0]})
         o.model = known[0]
+    pf = phase_factor_failures()
+    for k_, f_ in enumerate(pf):
+        f_.setdefault('id', f'ratio{k_}')
+    chk.bounded_check('frequency-ratios', 'real _source_phase_factor / time_offset_open: ratios that are integers only mathematically or 4e-9 off are accepted with the nearest '
+                      'count; ratios 1e-6 (relative) and more off an integer multiple or divisor, and plain non-integers, are refused',
+                      '7 pulse frequencies x ratios 1..8 x sign x {0, +-4e-9} x Hz/kHz accepted; 2 x 8 ratios x sign x 7 detunings x Hz/kHz x 2 entry points + 5 non-integers refused', 1797, pf)
 
 
 def _is_tdc_case(o):
@@ -569,7 +575,39 @@ def phase_factor_failures():
                             fails.append({'frequency': f'{fval!r} {unit}', 'pulse_frequency': f'{fpulse} Hz', 'ratio': n + delta, 'expected_repetitions': n, 'got': got})
                             if len(fails) >= 3:
                                 return fails
-    return fails
+    # the other side of the tolerance: "not, to a relative tolerance of about 1e-8, an integer multiple or divisor ... are rejected".
+    # Ratios (and inverse ratios) detuned by 1e-6 relative and more -- a hundred times the stated tolerance -- must be refused, for
+    # every entry point that needs the pulse frequency.
+    for fpulse in (14.0, 50.0):
+        for num, den in ((1, 1), (2, 1), (3, 1), (5, 1), (8, 1), (1, 2), (1, 3), (1, 4)):
+            for sign in (1, -1):
+                for rel in (1e-6, 3e-6, 1e-5, -1e-5, 1e-4, 1e-3, -2e-6):
+                    for unit, scale in (('Hz', 1.0), ('kHz', 1e-3)):
+                        fval = sign * (num / den) * (1 + rel) * fpulse * scale
+                        ch = dc.DiskChopper(axle_position=sc.vector([0, 0, 10.0], unit='m'), frequency=sc.scalar(fval, unit=unit),
+                                            beam_position=sc.scalar(0.0, unit='deg'), phase=sc.scalar(0.0, unit='deg'),
+                                            slit_begin=sc.array(dims=['slit'], values=[0.0], unit='deg'), slit_end=sc.array(dims=['slit'], values=[10.0], unit='deg'))
+                        for what, call in (('_source_phase_factor', lambda: ch._source_phase_factor(sc.scalar(fpulse, unit='Hz'))),
+                                           ('time_offset_open', lambda: ch.time_offset_open(pulse_frequency=sc.scalar(fpulse, unit='Hz')))):
+                            try:
+                                got = call()
+                            except ValueError:
+                                continue
+                            except Exception as e:  # noqa: BLE001
+                                got = f'raised {type(e).__name__}'
+                            fails.append({'frequency': f'{fval!r} {unit}', 'pulse_frequency': f'{fpulse} Hz', 'ratio': (num / den) * (1 + rel),
+                                          'problem': f'{what} accepts a frequency {abs(rel):.0e} (relative) off {num}/{den} of the pulse frequency: {str(got)[:80]}'})
+                            if len(fails) >= 3:
+                                return fails
+    for ratio in (1.5, 2 / 3, 2.5, 0.4, 4.52 / 4.3):
+        ch = dc.DiskChopper(axle_position=sc.vector([0, 0, 10.0], unit='m'), frequency=sc.scalar(14.0 * ratio, unit='Hz'), beam_position=sc.scalar(0.0, unit='deg'),
+                            phase=sc.scalar(0.0, unit='deg'), slit_begin=sc.array(dims=['slit'], values=[0.0], unit='deg'), slit_end=sc.array(dims=['slit'], values=[10.0], unit='deg'))
+        try:
+            ch.time_offset_open(pulse_frequency=sc.scalar(14.0, unit='Hz'))
+            fails.append({'frequency': f'{14.0 * ratio} Hz', 'pulse_frequency': '14 Hz', 'ratio': ratio, 'problem': 'accepted although neither a multiple nor a divisor'})
+        except ValueError:
+            pass
+    return fails[:3]
 
 
 def replay(rec):
@@ -583,7 +621,7 @@ def replay(rec):
     if 'slit' in name and 'validation' in name or 'overlap' in name or '_check_edge' in name:
         n, fails = validation_failures(limit=3)
         return {'reproduced': bool(fails), 'cases': fails[:2]}
-    if '_source_phase_factor' in name or '_is_int_or_inverse_int' in name:
+    if '_source_phase_factor' in name or '_is_int_or_inverse_int' in name or 'frequency-ratios' in name:
         fails = phase_factor_failures()
         return {'reproduced': bool(fails), 'cases': fails[:2]}
     fails = simulation_failures(300, 60, limit=10 ** 6)
